@@ -314,6 +314,22 @@ func streamC13(env *runEnv) {
 		}
 		g.stop()
 	}
+	// the provider withdraws a signing key after the gateway has started: tokens signed with it stop verifying
+	{
+		g := startOidcGateway(env, idp, "cookie", 7)
+		tagr := fmt.Sprintf("rot%d", env.seed)
+		spec0, obs0 := runOidcHistory(g, idp, []oidcOp{{kind: "connect", sess: 1}, {kind: "callback", sess: 1, stateRef: 1, cb: "ok", user: "alice"}, {kind: "connect", sess: 1}}, tagr+"a")
+		env.emit("oidc", "cookie", spec0, obs0)
+		idp.rotate()
+		// (the verifier keeps the keys it fetched last for as long as they verify: the first login under the new
+		// key makes it fetch the provider's current set; from then on the withdrawn key is not a provider key)
+		spec1, obs1 := runOidcHistory(g, idp, []oidcOp{{kind: "connect", sess: 3}, {kind: "callback", sess: 3, stateRef: 1, cb: "ok", user: "bob"}, {kind: "connect", sess: 3},
+			{kind: "connect", sess: 2}, {kind: "callback", sess: 2, stateRef: 2, cb: "badsig", user: "mallory"}, {kind: "connect", sess: 2}}, tagr+"b")
+		env.count("c13.key-withdrawn")
+		env.emit("oidc", "cookie", spec1, obs1)
+		idp.rotate() // back, for whatever follows
+		g.stop()
+	}
 	// OpenID stacked with a header-based mechanism: a gateway request that authenticates with a password does
 	// not log the browser session in (only the callback does), whichever store keeps the sessions
 	for vi, store := range []string{"file", "cookie"} {
